@@ -12,6 +12,7 @@ import (
 	"runtime"
 	"sort"
 	"strings"
+	"sync"
 	"testing"
 	"time"
 
@@ -28,10 +29,11 @@ const (
 	vfC05OpServerSub
 	vfC05OpTick
 	vfC05OpMapSub
+	vfC05OpSPSub
 	vfC05OpTrack
 )
 
-var vfC05OpNames = []string{"connect", "clientSubscribe", "serverSubscribe", "presenceTick", "mapSubscribe", "track"}
+var vfC05OpNames = []string{"connect", "clientSubscribe", "serverSubscribe", "presenceTick", "mapSubscribe", "sharedPollSubscribe", "track"}
 
 const (
 	vfC05GConnecting = iota
@@ -42,12 +44,14 @@ const (
 	vfC05GWrite
 	vfC05GPublishJoin
 	vfC05GMapState
+	vfC05GMapStream
 	vfC05GMapPresence
+	vfC05GMapIdle
 	vfC05GTrack
 )
 
 var vfC05GateNames = []string{"connectingHandler", "subscribeCallback", "brokerSubscribe", "addPresence", "history",
-	"replyWrite", "publishJoin", "mapStateRead", "mapPresencePublish", "trackHandler"}
+	"replyWrite", "publishJoin", "mapStateRead", "mapStreamRead", "mapPresencePublish", "mapBetweenPages", "trackHandler"}
 
 const (
 	vfC05CTransportClose = iota
@@ -63,6 +67,12 @@ var vfC05CauseNames = []string{"transportClose", "clientDisconnect", "nodeDiscon
 
 var vfC05Chans = []string{"pa", "pb", "solo"}
 
+const (
+	vfC05KeyMapPresence  = "C05:map-client-presence-published-after-close"
+	vfC05KeyLatePresence = "C05:map-or-shared-poll-subscribe-adds-presence-after-close"
+	vfC05KeyLateTrack    = "C05:track-joins-keyed-hub-after-close"
+)
+
 type vfC05Case struct {
 	Uni        bool
 	Proto      ProtocolType
@@ -71,7 +81,11 @@ type vfC05Case struct {
 	SameUser   bool
 	JoinLeave  bool
 	Positioned bool
-	MapPres    bool // stream subscriptions also carry MapClientPresenceChannel / MapUserPresenceChannel
+	MapPres    bool // subscriptions also carry MapClientPresenceChannel / MapUserPresenceChannel
+	ByMap      bool // the bystander also holds a map subscription to "m1"
+	ByTrack    bool // the bystander also holds a shared-poll subscription to "sp1" and tracks key k1
+	Paged      bool // map subscribe: the state has two entries and the page size is one (two commands)
+	FailAfter  bool // the backend call parked at the gate returns an error once released (closed connection => canceled call)
 	Op         int
 	Gate       int
 	GateCh     int
@@ -91,10 +105,21 @@ func (c vfC05Case) pre() []string {
 	return out
 }
 
+// gateChannel is the channel the parked operation works on.
+func (c vfC05Case) gateChannel() string {
+	switch c.Op {
+	case vfC05OpMapSub:
+		return "m1"
+	case vfC05OpSPSub, vfC05OpTrack:
+		return "sp1"
+	}
+	return vfC05Chans[c.GateCh]
+}
+
 func (c vfC05Case) String() string {
-	return fmt.Sprintf("uni=%v proto=%s rwq=%v tickConcurrency=%d sameUser=%v joinLeave=%v positioned=%v mapPresence=%v pre=%v preMode=%d op=%s gate=%s gateCh=%s cause=%s hold=%ds",
-		c.Uni, c.Proto, c.RWQ, c.Conc, c.SameUser, c.JoinLeave, c.Positioned, c.MapPres, c.pre(), c.PreMode,
-		vfC05OpNames[c.Op], vfC05GateNames[c.Gate], vfC05Chans[c.GateCh], vfC05CauseNames[c.Cause], c.Hold)
+	return fmt.Sprintf("uni=%v proto=%s rwq=%v tickConcurrency=%d sameUser=%v joinLeave=%v positioned=%v mapPresence=%v bystanderMap=%v bystanderTrack=%v paged=%v failAfterRelease=%v pre=%v preMode=%d op=%s gate=%s gateCh=%s cause=%s hold=%ds",
+		c.Uni, c.Proto, c.RWQ, c.Conc, c.SameUser, c.JoinLeave, c.Positioned, c.MapPres, c.ByMap, c.ByTrack, c.Paged, c.FailAfter, c.pre(), c.PreMode,
+		vfC05OpNames[c.Op], vfC05GateNames[c.Gate], c.gateChannel(), vfC05CauseNames[c.Cause], c.Hold)
 }
 
 // mutexHeld: the goroutine parked at this gate holds a sync.Mutex that close() needs (presenceMu for the tick,
@@ -103,9 +128,22 @@ func (c vfC05Case) mutexHeld() bool {
 	return c.Op == vfC05OpTick || c.Gate == vfC05GWrite
 }
 
+// vfC05Pick draws a (nearly) uniform element: rapid's integer and SampledFrom generators favour small indices, which
+// starves the later entries of the op / gate / cause tables.
+func vfC05Pick(rt *rapid.T, label string, xs []int) int {
+	v := 0
+	for _, b := range rapid.SliceOfN(rapid.Bool(), 6, 6).Draw(rt, label) {
+		v <<= 1
+		if b {
+			v |= 1
+		}
+	}
+	return xs[v%len(xs)]
+}
+
 func vfC05Gen(rt *rapid.T) vfC05Case {
 	c := vfC05Case{}
-	c.Uni = rapid.IntRange(0, 3).Draw(rt, "uni") == 0
+	c.Uni = rapid.IntRange(0, 4).Draw(rt, "uni") == 0
 	c.Proto = rapid.SampledFrom([]ProtocolType{ProtocolTypeJSON, ProtocolTypeProtobuf}).Draw(rt, "proto")
 	c.RWQ = rapid.Bool().Draw(rt, "rwq")
 	c.Conc = rapid.SampledFrom([]int{0, 0, 3}).Draw(rt, "conc")
@@ -113,11 +151,15 @@ func vfC05Gen(rt *rapid.T) vfC05Case {
 	c.JoinLeave = rapid.Bool().Draw(rt, "joinLeave")
 	c.Positioned = rapid.Bool().Draw(rt, "positioned")
 	c.MapPres = rapid.IntRange(0, 2).Draw(rt, "mapPres") == 0
-	ops := []int{vfC05OpConnect, vfC05OpConnect, vfC05OpClientSub, vfC05OpClientSub, vfC05OpServerSub, vfC05OpTick, vfC05OpTick}
+	c.ByMap = rapid.Bool().Draw(rt, "byMap")
+	c.ByTrack = rapid.Bool().Draw(rt, "byTrack")
+	c.Paged = rapid.Bool().Draw(rt, "paged")
+	ops := []int{vfC05OpConnect, vfC05OpConnect, vfC05OpClientSub, vfC05OpClientSub, vfC05OpServerSub, vfC05OpTick, vfC05OpTick,
+		vfC05OpMapSub, vfC05OpMapSub, vfC05OpMapSub, vfC05OpSPSub, vfC05OpTrack, vfC05OpTrack}
 	if c.Uni {
 		ops = []int{vfC05OpConnect, vfC05OpConnect, vfC05OpServerSub, vfC05OpTick}
 	}
-	c.Op = rapid.SampledFrom(ops).Draw(rt, "op")
+	c.Op = vfC05Pick(rt, "op", ops)
 	var gates []int
 	switch c.Op {
 	case vfC05OpConnect:
@@ -128,16 +170,35 @@ func vfC05Gen(rt *rapid.T) vfC05Case {
 		gates = []int{vfC05GBrokerSub, vfC05GPresence, vfC05GHistory, vfC05GWrite}
 	case vfC05OpTick:
 		gates = []int{vfC05GPresence}
+	case vfC05OpMapSub:
+		gates = []int{vfC05GCallback, vfC05GMapState, vfC05GBrokerSub, vfC05GMapStream, vfC05GWrite, vfC05GPresence}
+		if c.Paged {
+			gates = append(gates, vfC05GMapIdle, vfC05GMapIdle, vfC05GMapIdle)
+		}
+	case vfC05OpSPSub:
+		gates = []int{vfC05GCallback, vfC05GWrite, vfC05GPresence}
+	case vfC05OpTrack:
+		gates = []int{vfC05GTrack, vfC05GTrack, vfC05GWrite}
 	}
-	if c.JoinLeave && c.Op != vfC05OpTick {
+	if c.JoinLeave && c.Op != vfC05OpTick && c.Op != vfC05OpTrack {
 		gates = append(gates, vfC05GPublishJoin)
 	}
-	if c.MapPres && c.Op != vfC05OpTick {
+	if c.MapPres && c.Op != vfC05OpTick && c.Op != vfC05OpTrack {
 		gates = append(gates, vfC05GMapPresence)
 	}
-	c.Gate = rapid.SampledFrom(gates).Draw(rt, "gate")
+	c.Gate = vfC05Pick(rt, "gate", gates)
 	if c.Gate == vfC05GHistory {
 		c.Positioned = true
+	}
+	if c.Op == vfC05OpMapSub && c.Gate == vfC05GBrokerSub {
+		c.ByMap = false // the subject's map subscribe must be the node's first to reach the map broker
+	}
+	if c.Gate == vfC05GWrite && (c.Op == vfC05OpTrack || c.Op == vfC05OpMapSub || c.Op == vfC05OpSPSub) && rapid.IntRange(0, 3).Draw(rt, "forceRWQ") > 0 {
+		c.RWQ = true // with the queue the reply write is parked on the writer goroutine, not inside the operation
+	}
+	switch c.Gate {
+	case vfC05GBrokerSub, vfC05GPresence, vfC05GHistory, vfC05GMapState, vfC05GMapStream:
+		c.FailAfter = rapid.IntRange(0, 3).Draw(rt, "failAfter") == 0
 	}
 	c.Pre = rapid.IntRange(0, 7).Draw(rt, "pre")
 	c.GateCh = rapid.IntRange(0, 2).Draw(rt, "gateCh")
@@ -167,6 +228,10 @@ func vfC05Gen(rt *rapid.T) vfC05Case {
 		causes = []int{vfC05CTransportClose, vfC05CClientDisconnect, vfC05CNodeDisconnect, vfC05CSlow, vfC05CWriteErr}
 	case c.Gate == vfC05GWrite && c.Op == vfC05OpConnect:
 		causes = []int{vfC05CTransportClose, vfC05CNodeDisconnect}
+	case c.Gate == vfC05GWrite && (c.Op == vfC05OpTrack || c.Op == vfC05OpMapSub || c.Op == vfC05OpSPSub):
+		// causes with a disconnect push first flush the queue and therefore wait for the parked write; the two that
+		// do not flush (connection closed, slow) tear the subscription down while the operation is still parked
+		causes = []int{vfC05CTransportClose, vfC05CTransportClose, vfC05CSlow, vfC05CSlow, vfC05CClientDisconnect, vfC05CNodeDisconnect}
 	case c.Gate == vfC05GWrite:
 		causes = []int{vfC05CTransportClose, vfC05CClientDisconnect, vfC05CNodeDisconnect, vfC05CSlow}
 	case c.Gate == vfC05GConnecting:
@@ -176,7 +241,7 @@ func vfC05Gen(rt *rapid.T) vfC05Case {
 	default:
 		causes = []int{vfC05CTransportClose, vfC05CClientDisconnect, vfC05CNodeDisconnect, vfC05CSlow, vfC05CWriteErr, vfC05CExpire}
 	}
-	c.Cause = rapid.SampledFrom(causes).Draw(rt, "cause")
+	c.Cause = vfC05Pick(rt, "cause", causes)
 	c.Hold = rapid.SampledFrom([]int{0, 0, 1, 6}).Draw(rt, "hold")
 	if c.Op == vfC05OpConnect && c.Gate != vfC05GConnecting && len(c.pre()) >= 2 && c.Hold > 4 {
 		// close() waits up to 5 s per reserved connect-time channel, one after the other; after the first timeout it
@@ -198,18 +263,97 @@ type vfC05Out struct {
 type vfC05Presence struct {
 	inner PresenceManager
 	w     *vfWorld
+	pass  func(name string) error
 }
 
 func (p *vfC05Presence) Presence(ch string) (map[string]*ClientInfo, error) { return p.inner.Presence(ch) }
 func (p *vfC05Presence) PresenceStats(ch string) (PresenceStats, error)      { return p.inner.PresenceStats(ch) }
 func (p *vfC05Presence) AddPresence(ch string, clientID string, info *ClientInfo) error {
 	if c := p.w.connByID(clientID); c != nil {
-		p.w.Gates.Pass("presence:" + c.Name + ":" + ch)
+		if err := p.pass("presence:" + c.Name + ":" + ch); err != nil {
+			return err
+		}
 	}
 	return p.inner.AddPresence(ch, clientID, info)
 }
 func (p *vfC05Presence) RemovePresence(ch string, clientID string, userID string) error {
 	return p.inner.RemovePresence(ch, clientID, userID)
+}
+
+// vfC05MapBroker wraps the map broker: every call first passes the gate "map_<op>:<channel>[:<key>]"; the node's
+// subscription state per channel is recorded.
+type vfC05MapBroker struct {
+	MapBroker
+	w    *vfWorld
+	pass func(name string) error
+	mu   sync.Mutex
+	sub  map[string]bool
+}
+
+func (b *vfC05MapBroker) Close(ctx context.Context) error {
+	if c, ok := b.MapBroker.(Closer); ok {
+		return c.Close(ctx)
+	}
+	return nil
+}
+
+func (b *vfC05MapBroker) Subscribe(chs ...string) error {
+	for _, ch := range chs {
+		if err := b.pass("map_subscribe:" + ch); err != nil {
+			return err
+		}
+	}
+	err := b.MapBroker.Subscribe(chs...)
+	if err == nil {
+		b.mu.Lock()
+		for _, ch := range chs {
+			b.sub[ch] = true
+		}
+		b.mu.Unlock()
+	}
+	return err
+}
+
+func (b *vfC05MapBroker) Unsubscribe(chs ...string) error {
+	err := b.MapBroker.Unsubscribe(chs...)
+	if err == nil {
+		b.mu.Lock()
+		for _, ch := range chs {
+			delete(b.sub, ch)
+		}
+		b.mu.Unlock()
+	}
+	return err
+}
+
+func (b *vfC05MapBroker) Publish(ctx context.Context, ch string, key string, opts MapPublishOptions) (MapUpdateResult, error) {
+	_ = b.pass("map_publish:" + ch + ":" + key)
+	return b.MapBroker.Publish(ctx, ch, key, opts)
+}
+
+func (b *vfC05MapBroker) ReadState(ctx context.Context, ch string, opts MapReadStateOptions) (MapStateResult, error) {
+	if err := b.pass("map_readstate:" + ch); err != nil {
+		return MapStateResult{}, err
+	}
+	return b.MapBroker.ReadState(ctx, ch, opts)
+}
+
+func (b *vfC05MapBroker) ReadStream(ctx context.Context, ch string, opts MapReadStreamOptions) (MapStreamResult, error) {
+	if err := b.pass("map_readstream:" + ch); err != nil {
+		return MapStreamResult{}, err
+	}
+	return b.MapBroker.ReadStream(ctx, ch, opts)
+}
+
+func (b *vfC05MapBroker) subscribed() []string {
+	b.mu.Lock()
+	defer b.mu.Unlock()
+	var out []string
+	for ch := range b.sub {
+		out = append(out, ch)
+	}
+	sort.Strings(out)
+	return out
 }
 
 func vfC05GaugeSum(g *prometheus.GaugeVec) float64 {
@@ -227,7 +371,7 @@ func vfC05GaugeSum(g *prometheus.GaugeVec) float64 {
 }
 
 // vfC05Snapshot renders every registry of the node that could keep a trace of a connection, one sorted line each.
-func vfC05Snapshot(w *vfWorld, chans []string, extra func() []string) []string {
+func vfC05Snapshot(w *vfWorld, chans []string, mb *vfC05MapBroker, innerMap MapBroker, mapPresChans []string) []string {
 	name := func(id string) string {
 		if c := w.connByID(id); c != nil {
 			return c.Name
@@ -287,21 +431,55 @@ func vfC05Snapshot(w *vfWorld, chans []string, extra func() []string) []string {
 		lines = append(lines, fmt.Sprintf("presence.stats %s clients=%d users=%d", ch, st.NumClients, st.NumUsers))
 		lines = append(lines, fmt.Sprintf("broker.subscribed %s=%v", ch, w.broker.BrokerSubscribed(ch)))
 	}
+	lines = append(lines, fmt.Sprintf("mapbroker.subscribed %v", mb.subscribed()))
+	for _, pch := range mapPresChans {
+		res, err := innerMap.ReadState(context.Background(), pch, MapReadStateOptions{Limit: -1})
+		if err != nil {
+			lines = append(lines, fmt.Sprintf("map.clients %s error %v", pch, err))
+			continue
+		}
+		for _, p := range res.Publications {
+			lines = append(lines, fmt.Sprintf("map.clients %s key=%s", pch, name(p.Key)))
+		}
+	}
+	// keyed tracking: keyed hub (key -> subscribers) and the shared-poll item index
+	km := w.node.keyedManager
+	km.mu.RLock()
+	for ch, st := range km.channels {
+		st.hub.mu.RLock()
+		for key, subs := range st.hub.items {
+			if len(subs) == 0 {
+				lines = append(lines, fmt.Sprintf("keyed.hub %s %s <empty set kept>", ch, key))
+			}
+			for id := range subs {
+				lines = append(lines, fmt.Sprintf("keyed.hub %s %s %s", ch, key, name(id)))
+			}
+		}
+		st.hub.mu.RUnlock()
+	}
+	km.mu.RUnlock()
+	if sp := w.node.sharedPollManager; sp != nil {
+		sp.mu.RLock()
+		for ch, st := range sp.channels {
+			st.mu.Lock()
+			for key, e := range st.itemIndex {
+				lines = append(lines, fmt.Sprintf("sharedpoll.item %s %s pendingHubJoin=%d", ch, key, e.pendingHubJoin))
+			}
+			st.mu.Unlock()
+		}
+		sp.mu.RUnlock()
+	}
 	lines = append(lines, fmt.Sprintf("gauge.connectionsInflight=%v", vfC05GaugeSum(w.node.metrics.connectionsInflight)))
 	lines = append(lines, fmt.Sprintf("gauge.subscriptionsInflight=%v", vfC05GaugeSum(w.node.metrics.subscriptionsInflight)))
-	if extra != nil {
-		lines = append(lines, extra()...)
-	}
 	sort.Strings(lines)
 	return lines
 }
 
-func vfC05Diff(before, after []string) string {
+func vfC05DiffLines(before, after []string) (leaked, lost []string) {
 	b := map[string]int{}
 	for _, l := range before {
 		b[l]++
 	}
-	var leaked, lost []string
 	for _, l := range after {
 		if b[l] > 0 {
 			b[l]--
@@ -315,10 +493,7 @@ func vfC05Diff(before, after []string) string {
 			lost = append(lost, l)
 		}
 	}
-	if len(leaked) == 0 && len(lost) == 0 {
-		return ""
-	}
-	return fmt.Sprintf("present only after the connection ended: %v; present only before it was created: %v", leaked, lost)
+	return leaked, lost
 }
 
 func vfC05Spin() {
@@ -338,24 +513,51 @@ func vfC05Run(t *testing.T, cs vfC05Case, out *vfC05Out, isKnown func(string) bo
 		}
 		// A leaked map client-presence key would expire after KeyTTL: keep it far beyond the settle time of a case.
 		cfg.Map.GetMapChannelOptions = func(ch string) MapChannelOptions {
-			return MapChannelOptions{Mode: MapModeRecoverable, KeyTTL: 120 * time.Second}
+			return MapChannelOptions{Mode: MapModeRecoverable, KeyTTL: 120 * time.Second, MinPageSize: 1, DefaultPageSize: 1}
 		}
-		var mapHook func(op, ch, key string)
+		cfg.SharedPoll.GetSharedPollChannelOptions = func(ch string) (SharedPollChannelOptions, bool) {
+			if ch == "sp1" {
+				return SharedPollChannelOptions{RefreshInterval: 10 * time.Second}, true
+			}
+			return SharedPollChannelOptions{}, false
+		}
 		var innerMap *MemoryMapBroker
+		var mb *vfC05MapBroker
+		var failMu sync.Mutex
+		failName := "" // the gate whose call fails after its release (FailAfter)
+		var wp *vfWorld
+		pass := func(name string) error {
+			wp.Gates.Pass(name)
+			failMu.Lock()
+			defer failMu.Unlock()
+			if name == failName {
+				failName = ""
+				return errors.New("vf: backend call failed (connection context canceled)")
+			}
+			return nil
+		}
 		w, err := vfNewWorld(cfg, func(w *vfWorld) {
-			mb, err := NewMemoryMapBroker(w.node, MemoryMapBrokerConfig{})
+			wp = w
+			m, err := NewMemoryMapBroker(w.node, MemoryMapBrokerConfig{})
 			if err != nil {
 				panic(err)
 			}
-			innerMap = mb
-			w.node.SetMapBroker(&vfC05MapBroker{MapBroker: mb, hook: &mapHook})
+			innerMap = m
+			mb = &vfC05MapBroker{MapBroker: m, w: w, pass: pass, sub: map[string]bool{}}
+			w.node.SetMapBroker(mb)
+			w.node.OnSharedPoll(func(ctx context.Context, e SharedPollEvent) (SharedPollResult, error) {
+				res := SharedPollResult{}
+				for _, it := range e.Items {
+					res.Items = append(res.Items, SharedPollRefreshItem{Key: it.Key, Data: []byte(`{"k":"` + it.Key + `"}`)})
+				}
+				return res, nil
+			})
 		})
 		if err != nil {
 			return "infra: " + err.Error()
 		}
 		defer w.Close()
-		mapHook = func(op, ch, key string) { w.Gates.Pass("map_" + op + ":" + ch + ":" + key) }
-		w.node.SetPresenceManager(&vfC05Presence{inner: w.node.presenceManager, w: w})
+		w.node.SetPresenceManager(&vfC05Presence{inner: w.node.presenceManager, w: w, pass: pass})
 		time.Sleep(500 * time.Millisecond)
 
 		subOpts := func(ch string) SubscribeOptions {
@@ -371,6 +573,7 @@ func vfC05Run(t *testing.T, cs vfC05Case, out *vfC05Out, isKnown func(string) bo
 		if cs.SameUser {
 			bystanderUser = "us"
 		}
+		gateCh := cs.gateChannel()
 		var connectSubs []string // connect-time subscriptions of the subject
 		expireAt := int64(0)
 		w.Connecting = func(c *vfConn, e ConnectEvent) (ConnectReply, error) {
@@ -388,8 +591,13 @@ func vfC05Run(t *testing.T, cs vfC05Case, out *vfC05Out, isKnown func(string) bo
 			return r, nil
 		}
 		w.OnSubscribe = func(c *vfConn, e SubscribeEvent, cb SubscribeCallback) {
-			rep := SubscribeReply{Options: subOpts(e.Channel)}
-			if c.Name == "s" && cs.Gate == vfC05GCallback && e.Channel == vfC05Chans[cs.GateCh] {
+			o := subOpts(e.Channel)
+			o.Type = e.Type
+			if e.Type != SubscriptionTypeStream {
+				o.EnablePositioning = false // derived from the channel mode (map) / not applicable (shared poll)
+			}
+			rep := SubscribeReply{Options: o}
+			if c.Name == "s" && cs.Gate == vfC05GCallback && e.Channel == gateCh {
 				go func() {
 					w.Gates.Pass("cb:" + e.Channel)
 					cb(rep, nil)
@@ -398,11 +606,52 @@ func vfC05Run(t *testing.T, cs vfC05Case, out *vfC05Out, isKnown func(string) bo
 			}
 			cb(rep, nil)
 		}
+		w.PerClient = func(c *vfConn, client *Client) {
+			client.OnTrack(func(e TrackEvent, cb TrackCallback) {
+				if c.Name == "s" && cs.Gate == vfC05GTrack {
+					go func() {
+						w.Gates.Pass("track:" + e.Channel)
+						cb(TrackReply{}, nil)
+					}()
+					return
+				}
+				cb(TrackReply{}, nil)
+			})
+		}
 		w.broker.Hook = func(op, phase, ch string) error {
 			if phase == "before" {
-				w.Gates.Pass(op + ":" + ch)
+				return pass(op + ":" + ch)
 			}
 			return nil
+		}
+		mapSubscribe := func(c *vfConn, ch string, cursor string, off uint64, epoch string) uint32 {
+			id := c.NextID()
+			c.Cmd(&protocol.Command{Id: id, Subscribe: &protocol.SubscribeRequest{Channel: ch, Type: int32(SubscriptionTypeMap),
+				Phase: MapPhaseState, Limit: 1, Cursor: cursor, Offset: off, Epoch: epoch}})
+			return id
+		}
+		replyOf := func(c *vfConn, id uint32) *protocol.Reply {
+			for _, f := range c.Frames() {
+				if f.Reply != nil && f.Reply.Id == id {
+					return f.Reply
+				}
+			}
+			return nil
+		}
+		trackCmd := func(c *vfConn, keys ...string) *protocol.Command {
+			var items []*protocol.KeyedItem
+			for _, k := range keys {
+				items = append(items, &protocol.KeyedItem{Key: k})
+			}
+			return &protocol.Command{Id: c.NextID(), SubRefresh: &protocol.SubRefreshRequest{Channel: "sp1", Type: typeTrack,
+				Track: []*protocol.TrackBatch{{Signature: "sig", Items: items}}}}
+		}
+		if cs.Paged {
+			for _, k := range []string{"a", "b"} {
+				if _, err := w.node.MapPublish(context.Background(), "m1", k, MapPublishOptions{Data: []byte(`{}`)}); err != nil {
+					return "infra: map publish: " + err.Error()
+				}
+			}
 		}
 
 		// ---- bystander ----------------------------------------------------------------------------------------
@@ -411,37 +660,42 @@ func vfC05Run(t *testing.T, cs vfC05Case, out *vfC05Out, isKnown func(string) bo
 		for _, ch := range []string{"pa", "pb"} {
 			by.Cmd(&protocol.Command{Id: by.NextID(), Subscribe: &protocol.SubscribeRequest{Channel: ch}})
 		}
-		vfSettle()
-		if len(by.Client.Channels()) != 2 {
-			return "infra: bystander not subscribed; frames: " + vfRenderFrames(by.Frames())
-		}
-		allChans := append([]string{}, vfC05Chans...)
-		extra := func() []string { return nil }
-		if cs.MapPres {
-			extra = func() []string {
-				var lines []string
-				for _, ch := range vfC05Chans {
-					res, err := innerMap.ReadState(context.Background(), ch+":clients", MapReadStateOptions{Limit: -1})
-					if err != nil {
-						lines = append(lines, fmt.Sprintf("map.clients %s error %v", ch, err))
-						continue
-					}
-					for _, p := range res.Publications {
-						id := p.Key
-						if c := w.connByID(id); c != nil {
-							id = c.Name
-						}
-						lines = append(lines, fmt.Sprintf("map.clients %s key=%s", ch, id))
-					}
+		want := 2
+		if cs.ByMap {
+			id := mapSubscribe(by, "m1", "", 0, "")
+			vfSettle()
+			for i := 0; i < 4; i++ {
+				r := replyOf(by, id)
+				if r == nil || r.Subscribe == nil || r.Subscribe.Phase == MapPhaseLive {
+					break
 				}
-				return lines
+				id = mapSubscribe(by, "m1", r.Subscribe.Cursor, r.Subscribe.Offset, r.Subscribe.Epoch)
+				vfSettle()
 			}
+			want++
 		}
-		before := vfC05Snapshot(w, allChans, extra)
+		if cs.ByTrack {
+			by.Cmd(&protocol.Command{Id: by.NextID(), Subscribe: &protocol.SubscribeRequest{Channel: "sp1", Type: int32(SubscriptionTypeSharedPoll)}})
+			vfSettle()
+			by.Cmd(trackCmd(by, "k1"))
+			want++
+		}
+		vfSettle()
+		time.Sleep(100 * time.Millisecond) // cold-key poll of the bystander's tracked key
+		vfSettle()
+		if got := len(by.Client.Channels()); got != want {
+			return fmt.Sprintf("infra: bystander holds %d of %d subscriptions; frames: %s", got, want, vfRenderFrames(by.Frames()))
+		}
+		allChans := append(append([]string{}, vfC05Chans...), "m1", "sp1")
+		var mapPresChans []string
+		for _, ch := range allChans {
+			mapPresChans = append(mapPresChans, ch+":clients")
+		}
+		snapshot := func() []string { return vfC05Snapshot(w, allChans, mb, innerMap, mapPresChans) }
+		before := snapshot()
 
 		// ---- subject ------------------------------------------------------------------------------------------
 		conn := w.NewConn(vfConnCfg{Name: "s", User: subjectUser, Proto: cs.Proto, Uni: cs.Uni})
-		gateCh := vfC05Chans[cs.GateCh]
 		if cs.Cause == vfC05CExpire {
 			expireAt = time.Now().Unix() + 4
 		}
@@ -453,6 +707,9 @@ func vfC05Run(t *testing.T, cs vfC05Case, out *vfC05Out, isKnown func(string) bo
 			gateNames = []string{"cb:" + gateCh}
 		case vfC05GBrokerSub:
 			gateNames = []string{"subscribe:" + gateCh}
+			if cs.Op == vfC05OpMapSub {
+				gateNames = []string{"map_subscribe:" + gateCh}
+			}
 		case vfC05GPresence:
 			gateNames = []string{"presence:s:" + gateCh}
 			if cs.Op == vfC05OpTick {
@@ -469,10 +726,21 @@ func vfC05Run(t *testing.T, cs vfC05Case, out *vfC05Out, isKnown func(string) bo
 			gateNames = []string{"publish_join:" + gateCh}
 		case vfC05GMapPresence:
 			gateNames = []string{"map_publish:" + gateCh + ":clients:" + conn.Client.ID()}
+		case vfC05GMapState:
+			gateNames = []string{"map_readstate:" + gateCh}
+		case vfC05GMapStream:
+			gateNames = []string{"map_readstream:" + gateCh}
+		case vfC05GTrack:
+			gateNames = []string{"track:" + gateCh}
 		}
 		arm := func() {
 			for _, g := range gateNames {
 				w.Gates.Arm(g, 1)
+			}
+			if cs.FailAfter && len(gateNames) == 1 {
+				failMu.Lock()
+				failName = gateNames[0]
+				failMu.Unlock()
 			}
 		}
 		parkedAt := func() int {
@@ -499,6 +767,7 @@ func vfC05Run(t *testing.T, cs vfC05Case, out *vfC05Out, isKnown func(string) bo
 			return conn.Client.status == statusClosed
 		}
 
+		betweenPages := false
 		if cs.Op == vfC05OpConnect {
 			connectSubs = cs.pre()
 			arm()
@@ -533,11 +802,44 @@ func vfC05Run(t *testing.T, cs vfC05Case, out *vfC05Out, isKnown func(string) bo
 				arm()
 				time.Sleep(10 * time.Second) // the first tick fires in [interval/2, interval)
 				vfSettle()
+			case vfC05OpMapSub:
+				cursor, off, epoch := "", uint64(0), ""
+				if cs.Paged && cs.Gate != vfC05GCallback {
+					// first page: an ordinary command that leaves the subscription "loading" (mapSubscribing)
+					id := mapSubscribe(conn, "m1", "", 0, "")
+					vfSettle()
+					r := replyOf(conn, id)
+					if r == nil || r.Subscribe == nil || r.Subscribe.Cursor == "" {
+						return "infra: first map page did not return a cursor; frames: " + vfRenderFrames(conn.Frames())
+					}
+					cursor, off, epoch = r.Subscribe.Cursor, r.Subscribe.Offset, r.Subscribe.Epoch
+					betweenPages = true
+				}
+				if cs.Gate != vfC05GMapIdle {
+					betweenPages = false
+					arm()
+					go mapSubscribe(conn, "m1", cursor, off, epoch)
+					vfSettle()
+				}
+			case vfC05OpSPSub:
+				arm()
+				go conn.Cmd(&protocol.Command{Id: conn.NextID(), Subscribe: &protocol.SubscribeRequest{Channel: "sp1", Type: int32(SubscriptionTypeSharedPoll)}})
+				vfSettle()
+			case vfC05OpTrack:
+				conn.Cmd(&protocol.Command{Id: conn.NextID(), Subscribe: &protocol.SubscribeRequest{Channel: "sp1", Type: int32(SubscriptionTypeSharedPoll)}})
+				vfSettle()
+				if !conn.Client.IsSubscribed("sp1") {
+					return "infra: subject not subscribed to sp1; frames: " + vfRenderFrames(conn.Frames())
+				}
+				arm()
+				cmd := trackCmd(conn, "k1", "k2")
+				go conn.Cmd(cmd)
+				vfSettle()
 			}
 		}
 		parked := parkedAt() > 0
-		if !parked {
-			out.labels = append(out.labels, "gate_not_reached")
+		if !parked && !betweenPages {
+			out.labels = append(out.labels, "gate_not_reached:"+vfC05GateNames[cs.Gate]+"/"+vfC05OpNames[cs.Op])
 		}
 
 		// ---- end the connection while the operation is parked ---------------------------------------------------
@@ -576,56 +878,119 @@ func vfC05Run(t *testing.T, cs vfC05Case, out *vfC05Out, isKnown func(string) bo
 			release()
 			vfSettle()
 		}
+		closedBetweenPages := betweenPages && isClosed()
 		if !isClosed() {
 			out.labels = append(out.labels, "closed_only_after_release")
 			conn.TransportClose()
 			vfSettle()
 		}
-		// settle: unsubscribe waits (5 s), dissolver (1 s); memory presence has no TTL, so a leaked entry is never masked
+		// settle: unsubscribe waits (5 s), dissolver (1 s), shared-poll channel shutdown (1 s); memory presence has no
+		// TTL and map presence keys live 120 s, so a leaked entry is never masked by expiry
 		time.Sleep(7 * time.Second)
 		vfSettle()
 		time.Sleep(9 * time.Second)
 		vfSettle()
 
-		if closedWhileParked {
+		// the parked operation sat inside its own reply write (after the commit) only when replies bypass the queue
+		inOpWrite := cs.Gate == vfC05GWrite && cs.RWQ
+		if closedWhileParked && (cs.Gate != vfC05GWrite || inOpWrite || cs.Op == vfC05OpConnect) {
 			out.nontrivial = true
 			out.labels = append(out.labels, "closed_while_parked")
 			out.labels = append(out.labels, "gate="+vfC05GateNames[cs.Gate]+"/op="+vfC05OpNames[cs.Op])
+			out.labels = append(out.labels, "cause="+vfC05CauseNames[cs.Cause])
+		} else if closedWhileParked {
+			out.labels = append(out.labels, "closed_while_queued_write_parked")
+		}
+		if closedBetweenPages {
+			out.nontrivial = true
+			out.labels = append(out.labels, "closed_between_map_pages")
 			out.labels = append(out.labels, "cause="+vfC05CauseNames[cs.Cause])
 		}
 		if closed, _ := by.T.Closed(); closed {
 			return "the bystander connection was closed; frames: " + vfRenderFrames(by.Frames())
 		}
-		after := vfC05Snapshot(w, allChans, extra)
-		postCommitOverlap := (closedWhileParked && (cs.Gate == vfC05GMapPresence || cs.Gate == vfC05GPublishJoin)) ||
-			(cs.Op == vfC05OpConnect && cs.Cause == vfC05CWriteErr)
-		if cs.MapPres && postCommitOverlap {
-			// close() overlapped publishJoinAndPresence, which runs AFTER the commit: either the operation was parked
-			// inside it, or the failing connect-reply write spawned close() right before connectCmd reached it
-			// (scheduler-dependent). close() already ran its removeMapPresence, then the late MapPublish re-creates
-			// the client-presence key of the dead connection.
-			key := "C05:map-client-presence-published-after-close"
-			var kept []string
-			hit := false
-			for _, l := range after {
-				if strings.HasPrefix(l, "map.clients ") && strings.HasSuffix(l, " key=s") {
-					hit = true
-					continue
-				}
-				kept = append(kept, l)
-			}
-			if hit {
-				if isKnown(key) {
-					out.known = append(out.known, key)
-					out.knownEx = cs.String()
-					after = kept
-				} else {
-					return "[" + key + "] " + vfC05Diff(before, after) + "; case " + cs.String()
-				}
+		after := snapshot()
+		leaked, lost := vfC05DiffLines(before, after)
+
+		// ---- classification of known findings (operations that keep adding state AFTER their commit) ------------
+		type allow struct {
+			key   string
+			match func(l string) bool
+		}
+		var allows []allow
+		statsOK := map[string]bool{}
+		mapClientsLine := func(ch string) func(string) bool {
+			return func(l string) bool { return l == "map.clients "+ch+":clients key=s" }
+		}
+		streamOp := cs.Op == vfC05OpConnect || cs.Op == vfC05OpClientSub || cs.Op == vfC05OpServerSub
+		if cs.MapPres && streamOp {
+			// publishJoinAndPresence: publishJoin -> addMapClientPresence, both after the commit, no closed re-check
+			if (closedWhileParked && (cs.Gate == vfC05GMapPresence || cs.Gate == vfC05GPublishJoin)) ||
+				(cs.Op == vfC05OpConnect && cs.Cause == vfC05CWriteErr) {
+				allows = append(allows, allow{vfC05KeyMapPresence, func(l string) bool {
+					return strings.HasPrefix(l, "map.clients ") && strings.HasSuffix(l, " key=s")
+				}})
 			}
 		}
-		if d := vfC05Diff(before, after); d != "" {
-			return fmt.Sprintf("node state differs after the subject connection ended (closedWhileParked=%v): %s; subject frames: %s", closedWhileParked, d, vfRenderFrames(conn.Frames()))
+		if (cs.Op == vfC05OpMapSub || cs.Op == vfC05OpSPSub) && closedWhileParked {
+			// setupMapPresenceAndJoin: addPresence -> addMapClientPresence -> publishJoin, all after the commit
+			if inOpWrite || cs.Gate == vfC05GPresence {
+				allows = append(allows, allow{vfC05KeyLatePresence, func(l string) bool { return strings.HasPrefix(l, "presence "+gateCh+" s ") }})
+				statsOK[gateCh] = true
+			}
+			if cs.MapPres && (inOpWrite || cs.Gate == vfC05GPresence || cs.Gate == vfC05GMapPresence) {
+				allows = append(allows, allow{vfC05KeyMapPresence, mapClientsLine(gateCh)})
+			}
+		}
+		if cs.Op == vfC05OpTrack && closedWhileParked && inOpWrite {
+			// handleTrack: commit (step 2) -> reply write (step 4) -> keyedManager.addSubscribers (step 5), no re-check
+			allows = append(allows, allow{vfC05KeyLateTrack, func(l string) bool {
+				return (strings.HasPrefix(l, "keyed.hub sp1 ") && strings.HasSuffix(l, " s")) || strings.HasPrefix(l, "sharedpoll.item sp1 ")
+			}})
+		}
+		var realLeaked, realLost []string
+		hit := map[string]bool{}
+		for _, l := range leaked {
+			ok := false
+			for _, a := range allows {
+				if a.match(l) {
+					hit[a.key] = true
+					ok = true
+					break
+				}
+			}
+			if !ok && strings.HasPrefix(l, "presence.stats ") && statsOK[strings.Fields(l)[1]] && hit[vfC05KeyLatePresence] {
+				ok = true
+			}
+			if !ok {
+				realLeaked = append(realLeaked, l)
+			}
+		}
+		for _, l := range lost {
+			if strings.HasPrefix(l, "presence.stats ") && statsOK[strings.Fields(l)[1]] && hit[vfC05KeyLatePresence] {
+				continue
+			}
+			if strings.HasPrefix(l, "sharedpoll.item sp1 ") && hit[vfC05KeyLateTrack] {
+				continue
+			}
+			realLost = append(realLost, l)
+		}
+		var unknownKeys []string
+		for k := range hit {
+			if isKnown(k) {
+				out.known = append(out.known, k)
+				out.knownEx = cs.String()
+			} else {
+				unknownKeys = append(unknownKeys, k)
+			}
+		}
+		sort.Strings(unknownKeys)
+		if len(unknownKeys) > 0 {
+			return fmt.Sprintf("%v node state differs after the subject connection ended: present only after: %v; present only before: %v", unknownKeys, leaked, lost)
+		}
+		if len(realLeaked) > 0 || len(realLost) > 0 {
+			return fmt.Sprintf("node state differs after the subject connection ended (closedWhileParked=%v): present only after the connection ended: %v; present only before it was created: %v; subject frames: %s",
+				closedWhileParked, realLeaked, realLost, vfRenderFrames(conn.Frames()))
 		}
 		conn.Client.mu.RLock()
 		var left []string
@@ -633,33 +998,26 @@ func vfC05Run(t *testing.T, cs vfC05Case, out *vfC05Out, isKnown func(string) bo
 			left = append(left, ch)
 		}
 		nMap := len(conn.Client.mapSubscribing)
+		nTracked := 0
+		if conn.Client.keyed != nil {
+			for _, m := range conn.Client.keyed.trackedKeys {
+				nTracked += len(m)
+			}
+		}
 		conn.Client.mu.RUnlock()
 		sort.Strings(left)
-		if len(left) > 0 || nMap > 0 {
-			return fmt.Sprintf("closed client still holds channels=%v mapSubscribing=%d", left, nMap)
+		if nMap > 0 && cs.Op == vfC05OpMapSub && cs.Gate == vfC05GCallback && cs.Paged && closedWhileParked {
+			// The subscribe callback ran after close(): handleMapStatePhase has no closed check, installs the loading
+			// state on the dead Client object and serves a state page. Nothing in the node refers to it (no hub entry,
+			// no presence), so this is outside the property statement; counted, not failed.
+			out.labels = append(out.labels, "map_state_page_served_after_close_leaves_loading_state_on_dead_client")
+			nMap = 0
+		}
+		if len(left) > 0 || nMap > 0 || nTracked > 0 {
+			return fmt.Sprintf("closed client still holds channels=%v mapSubscribing=%d trackedKeys=%d", left, nMap, nTracked)
 		}
 		return ""
 	})
-}
-
-// vfC05MapBroker wraps the map broker so that Publish can be parked per (channel, key).
-type vfC05MapBroker struct {
-	MapBroker
-	hook *func(op, ch, key string)
-}
-
-func (b *vfC05MapBroker) Close(ctx context.Context) error {
-	if c, ok := b.MapBroker.(Closer); ok {
-		return c.Close(ctx)
-	}
-	return nil
-}
-
-func (b *vfC05MapBroker) Publish(ctx context.Context, ch string, key string, opts MapPublishOptions) (MapUpdateResult, error) {
-	if h := *b.hook; h != nil {
-		h("publish", ch, key)
-	}
-	return b.MapBroker.Publish(ctx, ch, key, opts)
 }
 
 func TestVF_C05(t *testing.T) {
